@@ -51,6 +51,13 @@ def register_providers(P):
     @obj_labels_getter()
     def o_labels(obj): return _form(STATE['labels'].get(okey(obj), ()))
 
+def register_string_user_providers():
+    # long-lived hashable user keys (login names): the same key is used in every session of a thread
+    @user_groups_getter(str)
+    def s_groups(login): return _form(STATE['groups'].get(('S', login), ()))
+    @user_roles_getter(str, None)
+    def s_roles(login, obj): return _form(STATE['roles'].get((('S', login), okey(obj)), ()))
+
 def register_entity_user_providers(P):
     @user_groups_getter(P)
     def p_groups(p): return _form(STATE['groups'].get(('P', p.id), ()))
@@ -81,6 +88,8 @@ def build_world():
         bs = Set(B)
     class P(db.Entity):
         name = Required(str)
+    class Z(db.Entity):
+        k = Optional(int)
     db.bind('sqlite', ':memory:')
     db.generate_mapping(create_tables=True)
     with db_session:
@@ -89,8 +98,9 @@ def build_world():
         c1 = C(id=1, k=1); c2 = C(id=2, k=2)
         b1.cs.add(c1); b1.cs.add(c2)
         P(id=1, name='p1'); P(id=2, name='p2')
+        Z(id=1)          # never loaded by the checks: `Z(id=1)` in a session makes its commit fail
     w.db = db
-    w.ents = [A, A2, B, C, P]
+    w.ents = [A, A2, B, C, P, Z]
     w.eid = {e: i for i, e in enumerate(w.ents)}
     w.sub = {w.eid[e]: sorted(w.eid[s] for s in e._subclasses_) for e in w.ents}
     w.attrs = []
@@ -104,7 +114,7 @@ def build_world():
         B.cs: {(2, 1): [(3, 1), (3, 2)]},
         C.bs: {(3, 1): [(2, 1)], (3, 2): [(2, 1)]},
     }
-    w.A, w.A2, w.B, w.C, w.P = A, A2, B, C, P
+    w.A, w.A2, w.B, w.C, w.P, w.Z = A, A2, B, C, P, Z
     return w
 
 W = None
@@ -123,8 +133,12 @@ def load(w, o):
 GROUPS = ['g1', 'g2']
 USERS = [None, ('U', 0), ('U', 1), ('U', 2), ('U', 3), ('P', 1), ('P', 2)]
 
+SUSERS = [('S', 'alice'), ('S', 'bob')]
+
 def user_json(u):
-    return None if u is None else (u[1] if u[0] == 'U' else 10 + u[1])
+    if u is None: return None
+    if u[0] == 'S': return 20 + [x[1] for x in SUSERS].index(u[1])
+    return u[1] if u[0] == 'U' else 10 + u[1]
 
 def gen_decl(w, rng, small=False):
     A, A2, B, C, P = w.eid[w.A], w.eid[w.A2], w.eid[w.B], w.eid[w.C], w.eid[w.P]
@@ -205,6 +219,7 @@ def declare(w, decls):
 def mk_user(w, u, plain):
     if u is None: return None
     if u[0] == 'U': return plain[u[1]]
+    if u[0] == 'S': return u[1]
     return w.P[u[1]]
 
 def mk_target(w, t):
@@ -321,7 +336,7 @@ def spec(w, decls, inputs, u, p, t, reasons=None):
 def world_request(w, decls, inputs, calls, tojson, schema):
     groups, roles, labels = inputs
     users = []
-    for u in USERS:
+    for u in USERS + SUSERS:
         if u is None: continue
         users.append({'id': user_json(u), 'groups': list(groups.get(u, [])), 'obj': [4, u[1]] if u[0] == 'P' else None})
     return {'op': 'world',
@@ -555,6 +570,141 @@ def check_case(ctx, w, c, outs):
         elif schema is not None:
             si += 1
 
+class Boom(Exception):
+    pass
+
+EXITS = ['commit', 'rollback', 'commitFails', 'allowed']
+
+def gen_session(w, rng, targets):
+    groups = {u: rng.choice([[], [], ['g1'], ['g2'], ['g1', 'g2']]) for u in SUSERS}
+    roles = {}
+    for u in SUSERS:
+        for o in w.objs:
+            r = rng.choice([[], [], ['r'], ['r', 'q']])
+            if r: roles[(u, o)] = r
+    labels = {o: ['l'] for o in w.objs if rng.random() < 0.5}
+    users = SUSERS + [None]
+    calls = [(rng.choice(users), rng.choice(['view', 'view', 'edit']), rng.choice(targets)) for _ in range(rng.choice([3, 6, 10]))]
+    tj = (rng.choice(SUSERS), rng.choice(w.objs)) if rng.random() < 0.6 else None
+    return {'inputs': (groups, roles, labels), 'calls': calls, 'exit': rng.choice(EXITS), 'form': rng.randrange(5), 'tojson': tj}
+
+def real_thread(w, sessions):
+    """the sessions one after the other on this thread; returns per session (answers, to_json outcome, how it really ended)"""
+    with db_session: pass                        # a committing session first: every history starts with cleared thread caches
+    out = []
+    for sn in sessions:
+        set_inputs(sn['inputs'], sn['form'])
+        answers, tj, ended = [], None, 'commit'
+        try:
+            with (db_session(allowed_exceptions=[Boom]) if sn['exit'] == 'allowed' else db_session):
+                for u, p, t in sn['calls']:
+                    answers.append(bool(has_perm(mk_user(w, u, {}), p, mk_target(w, t))))
+                if sn['tojson'] is not None:
+                    u, o = sn['tojson']
+                    set_current_user(u[1])
+                    try:
+                        doc = json.loads(w.db.to_json([load(w, o)], with_schema=False))
+                        tj = sorted(doc['objects'])
+                    except core.PermissionError:
+                        tj = 'PermissionError'
+                    finally:
+                        set_current_user(None)
+                if sn['exit'] in ('rollback', 'allowed'): raise Boom()
+                if sn['exit'] == 'commitFails': w.Z(id=1)
+        except Boom:
+            ended = 'rollback' if sn['exit'] == 'rollback' else 'commit-after-allowed-exception'
+        except core.TransactionIntegrityError:
+            ended = 'commit-failed'
+        out.append((answers, tj, ended))
+    return out
+
+def part_threads(ctx, w, rng):
+    """histories of db_sessions on one thread with memberships changing between the sessions and every kind of exit"""
+    targets = [t for t in all_targets(w) if t.get('e') != 5]
+    n = ctx.scale(40, 600)
+    hists, reqs = [], []
+    for i in range(n):
+        decls = [gen_decl(w, rng) for _ in range(rng.choice([1, 2, 3]))]
+        decls[0] = {'ents': rng.choice([[0, 2, 3], [0, 2], [2, 3], [0]]), 'perms': [rng.choice(['view', 'edit'])], 'groups': [rng.choice(['g1', 'g2'])],
+                    'roles': rng.choice([[], [], ['r']]), 'labels': rng.choice([[], [], ['l']]), 'excl': []}
+        sessions = [gen_session(w, rng, targets) for _ in range(rng.choice([2, 3, 4, 6]))]
+        reset_rules(w); declare(w, decls)
+        real = real_thread(w, sessions)
+        hists.append((decls, sessions, real))
+        reqs.append({'op': 'thread', 'sessions': [dict(world_request(w, decls, sn['inputs'], sn['calls'], [], []),
+                                                       exit='commit' if sn['exit'] == 'allowed' else sn['exit']) for sn in sessions]})
+    outs = ctx.driver('C34', reqs) if ctx.driver.ok else [None] * len(reqs)
+    for (decls, sessions, real), out in zip(hists, outs):
+        hinp = {'decls': [describe_decl(w, d) for d in decls],
+                'sessions': [{'groups': {k[1]: v for k, v in sn['inputs'][0].items()}, 'exit': sn['exit'],
+                              'calls': [[repr(u), p, describe(w, t)] for u, p, t in sn['calls']]} for sn in sessions]}
+        ctx.case(['thread', hinp], kind='thread:%d-sessions' % len(sessions))
+        expected_end = {'commit': 'commit', 'rollback': 'rollback', 'commitFails': 'commit-failed', 'allowed': 'commit-after-allowed-exception'}
+        for i, (sn, (answers, tj, ended)) in enumerate(zip(sessions, real)):
+            ctx.count('thread:exit:' + ended)
+            if ended != expected_end[sn['exit']]:
+                ctx.divergence('the session did not end the way the history asked for', dict(hinp, session=i), model=expected_end[sn['exit']], impl=ended)
+            if out is not None:
+                if 'answers' not in out: ctx.divergence('driver error', hinp, model=out, impl=None); break
+                if out['answers'][i] != answers:
+                    ctx.divergence('has_perm across db_sessions: model and real code disagree', dict(hinp, session=i), model=out['answers'][i], impl=answers)
+            for (u, p, t), real_a in zip(sn['calls'], answers):
+                exp = spec(w, decls, sn['inputs'], u, p, t)
+                ctx.case(['thread-call', hinp['decls'], i, repr(u), p, t, sn['inputs'][0].get(u)], nontrivial=False, kind='thread-call')
+                if real_a != exp and classify(w, decls, u, p, t, real_a, exp) is None:
+                    report_stale(ctx, w, decls, sessions, i, (u, p, t), real_a, exp, hinp)
+            if sn['tojson'] is not None:
+                u, o = sn['tojson']
+                exp_view = spec(w, decls, sn['inputs'], u, 'view', {'o': list(o)}) or spec(w, decls, sn['inputs'], u, 'edit', {'o': list(o)})
+                ctx.count('thread:to_json:%s' % ('PermissionError' if tj == 'PermissionError' else 'ok'))
+                if (tj != 'PermissionError') != exp_view:
+                    report_stale(ctx, w, decls, sessions, i, (u, 'to_json', {'o': list(o)}), tj, 'objects' if exp_view else 'PermissionError', hinp)
+    reset_rules(w)
+
+def report_stale(ctx, w, decls, sessions, i, call, observed, expected, hinp):
+    """an answer of session i does not follow the memberships of session i: find the shortest history that shows it"""
+    u, p, t = call
+    def one(sn, exit_kind):
+        c = [(u, 'view' if p == 'to_json' else p, t)]
+        return dict(sn, calls=c, exit=exit_kind, tojson=(u, tuple(t['o'])) if p == 'to_json' else None)
+    for j in range(i - 1, -1, -1):
+        for kind in (sessions[j]['exit'],):
+            small = [one(sessions[j], kind), one(sessions[i], 'commit')]
+            reset_rules(w); declare(w, decls)
+            r = real_thread(w, small)[1]
+            got = r[1] if p == 'to_json' else r[0][0]
+            exp2 = spec(w, decls, sessions[i]['inputs'], u, 'view' if p == 'to_json' else p, t) if p != 'to_json' else None
+            bad = (got != 'PermissionError') != (expected != 'PermissionError') if p == 'to_json' else got != exp2
+            if bad:
+                # fewest declarations that still show it
+                for d in decls:
+                    reset_rules(w); declare(w, [d])
+                    r1 = real_thread(w, small)[1]
+                    g1 = r1[1] if p == 'to_json' else r1[0][0]
+                    e1 = spec(w, [d], sessions[i]['inputs'], u, 'view' if p == 'to_json' else p, t) if p != 'to_json' else \
+                        (spec(w, [d], sessions[i]['inputs'], u, 'view', t) or spec(w, [d], sessions[i]['inputs'], u, 'edit', t))
+                    if ((g1 != 'PermissionError') != e1) if p == 'to_json' else (g1 != e1):
+                        decls = [d]; got = g1
+                        if p != 'to_json': exp2 = e1
+                        else: expected = 'objects' if e1 else 'PermissionError'
+                        break
+                g_before = sessions[j]['inputs'][0].get(u); g_now = sessions[i]['inputs'][0].get(u)
+                ctx.violation('after a db_session that ended by %s, %s for user %r is answered from the groups/roles the user had in that earlier session'
+                              % (real_thread_end(kind), 'to_json' if p == 'to_json' else 'has_perm(%r, %s)' % (p, describe(w, t)), u[1]),
+                              {'decls': [describe_decl(w, d) for d in decls],
+                               'session 1': {'groups of %s' % u[1]: g_before, 'call': [p, describe(w, t)], 'ends by': kind},
+                               'session 2': {'groups of %s' % u[1]: g_now, 'call': [p, describe(w, t)]}},
+                              observed=got, expected=expected if p == 'to_json' else exp2,
+                              key='stale-membership-after:%s:%s' % (kind, 'to_json' if p == 'to_json' else 'has_perm'))
+                reset_rules(w); declare(w, decls)
+                return
+    reset_rules(w); declare(w, decls)
+    ctx.violation('an answer in a later db_session does not follow the memberships of that session', dict(hinp, session=i, call=[repr(u), p, describe(w, t)]),
+                  observed=observed, expected=expected, key='stale-membership:%s' % json.dumps([hinp['decls'], i, repr(u), p, describe(w, t)]))
+
+def real_thread_end(kind):
+    return {'commit': 'a commit', 'rollback': 'rollback (exception in the body)', 'commitFails': 'a failing commit', 'allowed': 'a commit after an allowed exception'}[kind]
+
 def witness(ctx, w):
     """replayed on every run: the input of `C34_attr_full_false` on the real code"""
     A, B = w.eid[w.A], w.eid[w.B]
@@ -583,7 +733,7 @@ def run(ctx):
     global W
     if W is None:
         W = build_world()
-        register_providers(W.P); register_entity_user_providers(W.P)
+        register_providers(W.P); register_entity_user_providers(W.P); register_string_user_providers()
     w = W
     rng = ctx.rng
     witness(ctx, w)
@@ -608,6 +758,7 @@ def run(ctx):
                                         'groups': rng.choice([[], ['g1']]), 'roles': [], 'labels': [], 'excl': rng.choice([[], [], [{'e': 1}]])}
         cases.append(run_case(ctx, w, decls, gen_inputs(w, rng), rng.randrange(5), rng, full_cold=(i % 20 == 1), order_check=(i % 3 == 0), kind='%d-rules' % k))
     reset_rules(w)
+    part_threads(ctx, w, rng)
     if not ctx.driver.ok:
         ctx.note('driver unavailable: the model tie was skipped, only the oracle on the real code ran')
         for c in cases:
